@@ -14,6 +14,8 @@ expression is evaluated; early-evaluated constructor calls are followed to the d
 * `sites_use_os_entropy`, `rng_wrappers_fresh`   the draws come from OS entropy through pass-through
                          wrappers (restart clause: nothing seedable / cached inside rng.py).
 * `current_tree_fresh`   the two combined: no history over the current site table shares a value.
+* `kept_value_shares`    the boundary of the model: a value kept from another artifact (re-used builder object, cache)
+                         always violates the property; detected at run time (trace flag), not by the site table.
 * `ctr_pair_unique`      corollary: no two artifacts of any history feed the same (key, nonce) to AES-CTR
                          as soon as SPSDK chose the key in both (SB2: DEK) or the nonce in both
                          (SB2 nonce, MBI counter IV with a user key).
@@ -88,6 +90,17 @@ theorem ctr_pair_unique (h : History) (u v : CtrUse)
       obtain ⟨x, hx, hxa, hxt⟩ := hu.2 t hnv
       obtain ⟨y, hy, hya, hyt⟩ := hv.2 t (hn ▸ hnv)
       exact hfresh x hx y hy (by rw [hxa, hya]; exact hne) (by rw [hxt, hyt])
+
+/-- **What `run` does not cover: values kept in a re-used builder object.**  `run` lets an artifact obtain a value only by
+    evaluating a site during its own build (or by reading an early site).  An artifact `b` that instead keeps the value
+    another artifact `x.art` obtained (a builder object used for a second artifact whose stored IV is not drawn again,
+    a cache, …) is outside `run`, and always breaks the property — whatever the site table says.  The harness therefore
+    checks for every value found in an artifact that it was drawn during that artifact's own build (trace flag `x`
+    otherwise, which no output of `run` ever carries) and builds second artifacts with re-used builder objects. -/
+theorem kept_value_shares (o : List Obs) (x : Obs) (hx : x ∈ o) (b : Nat) (hb : b ≠ x.art) :
+    ¬ NoSharing (o ++ [⟨b, x.site, x.tok⟩]) := by
+  intro h
+  exact h x (by simp [hx]) ⟨b, x.site, x.tok⟩ (by simp) (fun e => hb e.symm) rfl
 
 /-! ### Sanity checks / non-vacuity -/
 
